@@ -2,7 +2,7 @@
 """usage: tools/install_seed.py <ID> <name> '<needs>' '<caught_by json>' -- copies a verified sub-agent change into /verif/seeded/<name>/"""
 import json, os, shutil, sys, subprocess
 ID, name, needs, caught = sys.argv[1], sys.argv[2], sys.argv[3], json.loads(sys.argv[4])
-src = f"/tmp/wt/{ID}-out"; dst = f"/verif/seeded/{name}"
+src = os.environ.get("SEED_ROOT", "/tmp/wt") + f"/{ID}-out"; dst = f"/verif/seeded/{name}"
 os.makedirs(dst, exist_ok=True)
 shutil.copy(f"{src}/patch.diff", f"{dst}/patch.diff")
 if os.path.isdir(f"{dst}/demo"): shutil.rmtree(f"{dst}/demo")
